@@ -304,6 +304,67 @@ def rng_for(name):
     return random.Random("%d/%s" % (core.seed(), name))
 
 
+# ------------------------------------------------ exact ties with <= 19 digits
+
+def short_ties(F, rng, per_q):
+    """(w, q) with w < 10^19 such that w * 10^q is EXACTLY halfway between two adjacent floats, for every q in the
+    round-to-even window (and one beyond each end), both parities of the lower neighbour, several binary scalings.
+    Construction: w * 10^q = (2m+1) * 2^t with 2m+1 a (p+1)-bit odd number.
+      q < 0 : w = (2m+1) * 5^-q * 2^j            (t = q + j)
+      q >= 0: 2m+1 = 5^q * k (k odd), w = k * 2^j (t = q + j)"""
+    out = []
+    lo, hi = 1 << F.p, 1 << (F.p + 1)          # 2m+1 in [2^p, 2^(p+1))
+    for q in range(F.tie_lo - 2, F.tie_hi + 3):
+        for parity in (0, 1):
+            for _ in range(per_q):
+                if q < 0:
+                    mmax = min(hi // 2, (10 ** 19 // 5 ** (-q)) // 2)
+                    if mmax <= lo // 2:
+                        continue
+                    m = rng.randrange(lo // 2, mmax)
+                    m = (m & ~1) | parity
+                    if m < lo // 2:
+                        m += 2
+                    odd = 2 * m + 1
+                    base = odd * 5 ** (-q)
+                else:
+                    f = 5 ** q
+                    kmin, kmax = -(-lo // f), (hi - 1) // f
+                    if kmax - kmin > 4000:
+                        k = rng.randrange(kmin, kmax) | 1
+                        if ((f * k - 1) // 2) % 2 != parity:
+                            k += 2
+                        ks = [k] if lo <= f * k < hi else []
+                    else:
+                        ks = [k for k in range(kmin | 1, kmax + 1, 2) if ((f * k - 1) // 2) % 2 == parity]
+                    if not ks:
+                        continue
+                    base = rng.choice(ks)
+                for j in sorted({0, 1, rng.randrange(0, 12), rng.randrange(0, 64)}):
+                    w = base << j
+                    if w < 10 ** 19:
+                        out.append((w, q))
+    return out
+
+
+def g_short_ties(F, rng, per_q):
+    """G8: the exact ties above as parse inputs, +-1 in the last digit and in several forms"""
+    out = []
+    for (w, q) in short_ties(F, rng, per_q):
+        for dw, tag in ((0, "G8:tie"), (1, "G8:tie+1"), (-1, "G8:tie-1")):
+            if w + dw <= 0:
+                continue
+            ds = str(w + dw)
+            t = ds.rstrip("0") or "0"
+            for (i, f, e) in forms(t, q + len(ds) - len(t), rng, nforms=1, long_ok=False)[:2]:
+                out.append(mk(F.name, i, f, e, tag))
+        # the same tie with trailing zeros in the fraction and with a far-out digit (slow path must agree)
+        ds = str(w)
+        out.append(mk(F.name, ds, "0" * 25, q, "G8:tie-zeros"))
+        out.append(mk(F.name, ds, "0" * 25 + "1", q, "G8:tie-far1"))
+    return out
+
+
 # ------------------------------------------------------------------ G3 (C11)
 
 U64 = (1 << 64) - 1
@@ -379,22 +440,13 @@ def g_moderate(F, rng, tier):
         w = rng.getrandbits(rng.choice([64, 64, 63, 60, 54, 30]))
         qq = rng.randrange(F.p10_lo - 3, F.p10_hi + 4)
         add(w, qq, rng.random() < 0.5, "G3:random")
-    # small w near ties inside the tie window
-    for qq in range(F.tie_lo - 1, F.tie_hi + 2):
-        for _ in range(2 if q else 30):
-            mm = rng.getrandbits(F.p) | 1 | (1 << (F.p - 1))
-            # w * 10^qq = (2 mm + 1) * 2^t
-            if qq >= 0:
-                v = (2 * mm + 1)
-                if v % (5 ** qq) == 0:
-                    add(v // 5 ** qq, qq, False, "G3:window")
-                add((2 * mm + 1) << rng.randrange(0, 8), qq, False, "G3:window")
-            else:
-                w = (2 * mm + 1) * 5 ** (-qq)
-                sh = rng.randrange(0, 4)
-                add(w << sh, qq, False, "G3:window")
-                add((w << sh) + 1, qq, False, "G3:window")
-                add(w << sh, qq, True, "G3:window-trunc")
+    # exact ties with <= 19 digits: every q of the tie window (+-2), both parities of the lower neighbour
+    for (w, qq) in short_ties(F, rng, 2 if q else 25):
+        add(w, qq, False, "G3:window")
+        add(w + 1, qq, False, "G3:window+1")
+        add(w - 1, qq, False, "G3:window-1")
+        add(w, qq, True, "G3:window-trunc")
+        add(w - 1, qq, True, "G3:window-trunc")
     for k, r in enumerate(out):
         r["id"] = k + 1
     return out
@@ -437,7 +489,7 @@ def g_chains(F, rng, tier):
         lim = (2 << F.mbits) // 10 ** shift
         out.append(chain_of(F, [(str(lim + d), F.fast_exp + shift) for d in range(-2, 4) if lim + d > 0], rng, "C09:disguised"))
     # 2./5. around midpoints
-    fields = rng.sample(range(0, F.emaxfield), 40 if q else 200) + [0, 1, F.emaxfield - 1]
+    fields = rng.sample(range(0, F.emaxfield), (200 if F.name == 'f32' else 700) if q else (254 if F.name == 'f32' else 2046)) + [0, 1, F.emaxfield - 1]
     for ef in fields:
         fr = rng.choice(sig_patterns(F, rng, 2))
         bits = (ef << F.mbits) | fr
@@ -449,8 +501,18 @@ def g_chains(F, rng, tier):
         vals = [(str(v - 1), e10), (str(v - 1) + "9" * z, e10 - z), (ds, e10), (ds + "0" * z, e10 - z),
                 (ds + "0" * z + "1", e10 - z - 1), (ds + "1", e10 - 1), (str(v + 1), e10)]
         out.append(chain_of(F, vals, rng, "C09:midpoint"))
-        # successive last digits of the first 17..20 digits
         n = len(ds)
+        # short inputs (resolved by the fast / moderate path) straddled by long neighbours (resolved with big integers):
+        #   trunc_t(mid) < mid <= trunc_t(mid)999... < trunc_t(mid)+1 < (trunc_t(mid)+1)000...1
+        for t in sorted(set([x for x in (17, 18, 19) if x < n] + rng.sample(range(1, min(n, 20)), min(1 if q else 6, min(n, 20) - 1)))):
+            pre = ds[:t]
+            up = str(int(pre) + 1)
+            et = e10 + n - t
+            vals = [(pre, et), (ds, e10), (pre + "9" * 30, et - 30), (up, et - (len(up) - len(pre))), (up + "0" * 25 + "1", et - (len(up) - len(pre)) - 26)]
+            if len(up) != len(pre):
+                vals = [(pre, et), (ds, e10), (pre + "9" * 30, et - 30), (up, et)]
+            out.append(chain_of(F, vals, rng, "C09:straddle"))
+        # successive last digits of the first 17..20 digits
         for nd in (19, 20, 17):
             if n > nd:
                 pre = ds[:nd - 1]
